@@ -71,6 +71,17 @@ def setup():
         return child
 
     TestNode.pick_child = pick_child
+    original_cleanup_ready = TestNode.is_cleanup_ready
+
+    def is_cleanup_ready(self, worker):
+        sim = CURRENT
+        if sim is not None:
+            sim.steps += 1
+            if sim.steps > sim.max_steps:
+                raise vloop.StepBound(f"more than {sim.max_steps} traversal steps")
+        return original_cleanup_ready(self, worker)
+
+    TestNode.is_cleanup_ready = is_cleanup_ready
     # observe every registration of a visit (C09/C16: shared bookkeeping)
     original_register = node_module.EdgeRegister.register
 
@@ -346,12 +357,16 @@ class Scenario:
 
     def to_json(self):
         return {"tests": self.tests, "vm_strs": self.vm_strs, "nets": self.nets, "lazy": self.lazy,
-                "slots": self.slots, "suite": self.suite, "extra": self.extra}
+                "slots": self.slots, "suite": self.suite, "extra": self.extra,
+                "ref_nets": getattr(self, "ref_nets", None)}
 
     @staticmethod
     def from_json(data):
-        return Scenario(data["tests"], data["vm_strs"], data["nets"], data["lazy"], data.get("slots"),
-                        data.get("suite"), data.get("extra"))
+        scenario = Scenario(data["tests"], data["vm_strs"], data["nets"], data["lazy"], data.get("slots"),
+                            data.get("suite"), data.get("extra"))
+        if data.get("ref_nets"):
+            scenario.ref_nets = data["ref_nets"]
+        return scenario
 
     def param_dict(self):
         params = {"nets": self.nets, "shared_pool": SHARED_POOL, "test_timeout": "100"}
@@ -412,7 +427,7 @@ RUN_KEYS = ["max_tries", "max_concurrent_tries", "rerun_status", "stop_status", 
 
 class Sim:
     def __init__(self, scenario, run_params=None, pools=None, durations=None, outcomes=None,
-                 always_fail=None, previous=None, max_iterations=3_000_000, scratch=None):
+                 always_fail=None, previous=None, max_iterations=400_000, scratch=None):
         self.scenario = scenario
         self.run_params = dict(run_params or {})
         self.pools = pools or Pools()
@@ -423,6 +438,8 @@ class Sim:
         self.max_iterations = max_iterations
         self.scratch = scratch
         self.events = []
+        self.steps = 0
+        self.max_steps = 3_000_000
         self.registrations = []
         self.attempts = {}
         self.workers = {}
@@ -450,7 +467,14 @@ class Sim:
         value = self.durations[stable_index(f"{ident}#{attempt}", len(self.durations))]
         timeout = float(self.run_params.get("test_timeout", 100))
         if isinstance(value, str):  # fractions of the timeout
-            value = float(value[:-1]) * timeout
+            fraction = float(value[:-1])
+            # keep the number of back-off iterations per test affordable: the back-off period is
+            # max(timeout/1000, 0.1), so long fractions are only used with small timeouts
+            if timeout >= 100:
+                fraction = min(fraction, 0.05)
+            elif timeout >= 10:
+                fraction = min(fraction, 0.5)
+            value = fraction * timeout
         return max(float(value), 0.001)
 
     def outcome_for(self, ident, attempt):
